@@ -2,7 +2,7 @@
 import itertools
 
 ID = 'C01'
-LEAN_MODULES = ['C01', 'C01b', 'C01c', 'C01d']
+LEAN_MODULES = ['C01', 'C01b', 'C01c', 'C01d', 'C01e']
 RULE = ('one case = 2-4 REAL nodes (KeyspaceGroup + MemStore + Clock + datacake_rpc Server with the real ConsistencyService and ReplicationService on loopback; no chitchat), 3-25 events: client put/del/put_many/del_many '
         'applied locally exactly as ReplicatedStoreHandle does (stamps from the real clocks are fed to the model), their replication messages delivered / dropped / duplicated / reordered / batched through the real RPC clients, '
         'purges, late deliveries, anti-entropy exchanges in the middle of the history (so that later polls meet trackers); then - after the last operation - every ordered pair (j,i) completes one anti-entropy exchange (real poll_keyspace -> get_state -> Diff -> handle_removals / handle_modified with fetch_docs) '
